@@ -300,9 +300,13 @@ func (r *Run) newTravScen(i int) *travScen {
 	var list []*gnode
 	for j := 0; j < nn; j++ {
 		g := &gnode{port: 1000 + j, id: r.structuredID(t.target)}
-		if r.rng.Intn(5) == 0 {
+		switch r.rng.Intn(10) {
+		case 0, 1:
 			g.ip = r.randIP(1)
-		} else {
+		case 2:
+			// an IPv4 address held in 16-byte (IPv4-mapped) form, as net.ParseIP and resolvers return it
+			g.ip = append([]byte{0, 0, 0, 0, 0, 0, 0, 0, 0, 0, 0xff, 0xff}, r.randIP(0)...)
+		default:
 			g.ip = r.randIP(0)
 		}
 		if j > 0 && r.rng.Intn(8) == 0 {
